@@ -98,7 +98,38 @@ func (o *DefOuter) InitDefaults() {
 	}
 }
 
+// Top is used as the type of the whole target: the struct passed to Unpack
+// has defaults and a Validate method of its own (it rejects z == 13 after all
+// fields were processed).
+type Top struct {
+	A   int            `config:"a"`
+	S   []int          `config:"s"`
+	M   map[string]int `config:"m"`
+	D   DefStruct      `config:"d"`
+	PV  *ValStruct     `config:"pv"`
+	R   []ValStruct    `config:"r,replace"`
+	hid int
+	Ig  string `config:"ig,ignore"`
+	N   DefInt `config:"n"`
+	Z   int    `config:"z"`
+}
+
+func (t *Top) InitDefaults() {
+	if t.A == 0 {
+		t.A = 11
+	}
+	t.hid = 77
+}
+
+func (t Top) Validate() error {
+	if t.Z == 13 {
+		return errors.New("top: z must not be 13")
+	}
+	return nil
+}
+
 const (
+	kTop       = "cat:c13_top"
 	kDefStruct = "cat:c13_defstruct"
 	kDefInt    = "cat:c13_defint"
 	kDefMap    = "cat:c13_defmap"
@@ -139,6 +170,24 @@ func init() {
 		{Name: "Ig", Tag: "ig", Ignore: true, T: td("int")},
 	}})
 }
+
+func init() {
+	gen.RegisterCat("c13_top", reflect.TypeOf(Top{}), &gen.TD{Kind: "struct", Fields: []gen.FD{
+		{Name: "A", Tag: "a", T: td("int")},
+		{Name: "S", Tag: "s", T: &gen.TD{Kind: "slice", Elem: td("int")}},
+		{Name: "M", Tag: "m", T: &gen.TD{Kind: "map", Elem: td("int")}},
+		{Name: "D", Tag: "d", T: td(kDefStruct)},
+		{Name: "PV", Tag: "pv", T: &gen.TD{Kind: "ptr", Elem: td(kValStruct)}},
+		{Name: "R", Tag: "r", Policy: "replace", T: &gen.TD{Kind: "slice", Elem: td(kValStruct)}},
+		{Name: "hid", Tag: "hid", Unexp: true, T: td("int")},
+		{Name: "Ig", Tag: "ig", Ignore: true, T: td("string")},
+		{Name: "N", Tag: "n", T: td(kDefInt)},
+		{Name: "Z", Tag: "z", T: td("int")},
+	}})
+}
+
+// topKinds are the catalogue structs that also serve as the type of the whole target.
+var topKinds = []string{kTop, kTop, kDefStruct, kValStruct, kDefOuter}
 
 type initer interface{ InitDefaults() }
 
